@@ -42,6 +42,9 @@ type Spec struct {
 	ClientPadding  string     `json:"clientPadding,omitempty"`
 	ClientNetwork  string     `json:"clientNetwork,omitempty"` // "", "ip", "ip4", "ip6": address family of resolved names
 	ClientMTU      int        `json:"clientMTU,omitempty"`     // MTU of the outbound client (default 1500)
+	// ClientUser/ClientPass: socks5 client with username/password authentication
+	ClientUser string `json:"clientUser,omitempty"`
+	ClientPass string `json:"clientPass,omitempty"`
 
 	// ListenWildcard: "" (listen on 127.0.0.1), "0.0.0.0" or "[::]": the UDP listener is bound to the wildcard
 	// address, so clients can reach the relay at several local addresses (ServerAddr and RelayAddrs).
@@ -141,6 +144,12 @@ func (sp *Spec) ToJSON(dir string) ([]byte, error) {
 		clients = append(clients, c)
 	} else {
 		c := jmap{"name": "out", "protocol": sp.ClientProto, "endpoint": sp.ClientEndpoint, "enableUDP": true, "mtu": cmtu}
+		if sp.ClientProto == "socks5" && sp.ClientUser != "" {
+			c["socks5"] = jmap{"username": sp.ClientUser, "password": sp.ClientPass, "enableUserPassAuth": true}
+		}
+		if sp.ClientNetwork != "" {
+			c["network"] = sp.ClientNetwork
+		}
 		if isSS2022(sp.ClientProto) {
 			k := sp.ClientKeys
 			if k.EIH() {
